@@ -481,6 +481,15 @@ func main() {
 		bucketPool := []string{"updates", "b", "", "my bucket"}
 		cs.TPath = rr.Chance(3, 4)
 		cs.TBucket, cs.TSize, cs.TFreq = pickS(rr, bucketPool, 1, 3), pickS(rr, sizePool, 1, 2), pickS(rr, freqPool, 1, 2)
+		if rr.Chance(1, 8) {
+			// the layout of the shipped Caddyfile when the variable is not set: anonymous subscribers, the subscriber
+			// key given through a placeholder that resolves to nothing
+			cs.SubClass, cs.SubAlg, cs.Anonymous = "absent", nil, true
+			cs.Placeholders |= 4
+			if cs.PubClass == "absent" {
+				cs.PubClass = "text"
+			}
+		}
 		cs.EnvURL = rr.Chance(1, 4)
 		cs.UKind = h.Pick(rr, []string{"local", "bolt-abs", "bolt-abs", "bolt-rel", "bolt-rel", "bolt-nopath", "unknown"})
 		cs.UBucket, cs.USize, cs.UFreq = pickS(rr, bucketPool, 1, 3), pickS(rr, sizePool, 1, 2), pickS(rr, freqPool, 1, 2)
@@ -581,6 +590,28 @@ func main() {
 			subAlg := "-"
 			if o.HasSubscriberKey {
 				subAlg = h.Hex(probe(hub, false, map[string]*jws.Key{cs.SubClass: sk}))
+			}
+			// implementation alone (C19 C03 C01): no subscriber key configured — absent, or given through a placeholder that
+			// resolves to nothing — means no subscriber key in effect: every subscriber is anonymous, and in particular a
+			// token signed with the empty string, or with the text of the placeholder, is not "verified"
+			if cs.SubClass == "absent" {
+				forged := ""
+				for _, secret := range []string{"", "{env.VERIF_UNSET_KEY}"} {
+					tok := jws.MintAlg("HS256", nil, []byte(secret), `{"mercure":{"subscribe":["*"],"payload":"forged"}}`)
+					req, _ := http.NewRequest(http.MethodGet, "http://hub.test/.well-known/mercure?topic=t", nil)
+					req.Header.Set("Authorization", "Bearer "+tok)
+					if who := mercure.VerifAuthorize(hub, req, false); strings.HasPrefix(who, "ok") {
+						forged = fmt.Sprintf("%q", secret)
+					}
+				}
+				if o.HasSubscriberKey || forged != "" {
+					for _, k := range []string{"C19", "C03", "C01"} {
+						r.Violate(h.Violation{Key: k + ":subscriber-key-in-effect-although-none-configured",
+							What:   fmt.Sprintf("no subscriber key is configured, yet the hub verifies subscriber tokens (key function present: %v; a token HMAC-signed with %s is accepted with its subscribe claim — private updates included):\n%s", o.HasSubscriberKey, forged, text),
+							Replay: rp})
+					}
+				}
+				r.Count("no subscriber key configured: forged-token probes")
 			}
 			if strings.Contains(pubAlg, "+") || strings.Contains(subAlg, "2b") {
 				r.Violate(h.Violation{Key: "C19:tokens-of-another-algorithm-accepted",
